@@ -119,17 +119,48 @@ def check_ledger(res, name, src):
         res.violation('h12:balance-with-nested-scan', 'balance is added once per row however many times the targets reference it (another scan evaluated in between)', {'ledger': name, 'query': q}, bad, 'prefix sums')
 
 
+def check_inventory_columns(res, name, src):
+    """sum() over an inventory-typed column (subquery output, user table): accumulators never alias row data"""
+    conn = ledger.connect(src)
+    inner = 'SELECT account, sum(position) AS inv GROUP BY account'
+    rows = conn.execute(inner).fetchall()
+    total = inventory.Inventory()
+    for _, i in rows:
+        total.add_inventory(i)
+    res.case((name, 'sum-of-inventory-column'))
+    q = f'SELECT sum(inv), units(sum(inv)), cost(sum(inv)), sum(inv) FROM ({inner})'
+    got = conn.execute(q).fetchall()
+    want = (total, total.reduce(convert.get_units), total.reduce(convert.get_cost), total)
+    if not got or tuple(got[0]) != want:
+        res.violation('h12:sum-inventory-column-several-aggregates', 'sum() over an inventory column equals the inventory sum however many aggregates read the column', {'ledger': name, 'query': q}, got[0] if got else None, want)
+    from harness.common import MemTable
+    cells = [(a, inventory.Inventory(i)) for a, i in rows]
+    snapshot = [(a, inventory.Inventory(i)) for a, i in cells]
+    conn.tables['m'] = MemTable('m', [('account', str), ('inv', inventory.Inventory)], cells)
+    res.case((name, 'user-table-of-inventories'))
+    parts = conn.execute('SELECT root(account, 1), sum(inv) FROM #m GROUP BY 1').fetchall()
+    tot2 = conn.execute('SELECT sum(inv) FROM #m').fetchall()
+    comb = inventory.Inventory()
+    for _, i in parts:
+        comb.add_inventory(i)
+    if comb != total or not tot2 or tot2[0][0] != total or cells != snapshot:
+        res.violation('h12:inventory-rows-mutated', 'executing never mutates the source data; partition sums add up to the whole (user table holding inventories)', {'ledger': name}, (comb, tot2, cells != snapshot), total)
+
+
 def run(tier, seed):
     res = Result('ledgers A and B (multi-currency, lots at cost with dates, sales reducing lots, price conversions) x 8 selections x {sum, units, cost, value, convert} '
                  'homomorphisms x 4 partitions x 6 target lists mentioning balance 0-4 times; balance in WHERE; nested scan between two balance references; '
                  'distinct = (ledger, check, selection)')
     check_ledger(res, 'A', ledger.LEDGER_A)
     check_ledger(res, 'B', ledger.LEDGER_B)
+    check_inventory_columns(res, 'A', ledger.LEDGER_A)
+    check_inventory_columns(res, 'B', ledger.LEDGER_B)
     return res.asdict()
 
 
 def replay(case):
     r = Result()
     check_ledger(r, case.get('ledger', 'B'), ledger.LEDGER_A if case.get('ledger') == 'A' else ledger.LEDGER_B)
+    check_inventory_columns(r, case.get('ledger', 'B'), ledger.LEDGER_A if case.get('ledger') == 'A' else ledger.LEDGER_B)
     hit = [v for v in r.violations if v['case'] == case]
     return {'status': 'reproduced' if hit else 'not-reproduced', 'detail': repr(hit[:1])[:600]}
